@@ -13,13 +13,20 @@
      append(s, count) / resize / substr: always allowed (they clamp).
    [ptr_ok]: a (pointer, count) argument stays inside the array the pointer points into. *)
 From Tetl Require Import Lib.Base Lib.Arr C08.Model C08.ProofsFind C04.Model C04.ModelQ C04.Spec C04.Inv C04.CstrFacts
-  C04.InvOps C04.Total C05.ProofsString.
+  C04.InvOps C04.Total C05.SpecString C05.ProofsString.
 Local Open Scope Z_scope.
 
 Theorem C05_string_violation_fires_iff : forall s o, inv s -> op_wf o -> ptr_ok o ->
   (step s o = Contract <-> pre_ok s o = false).
 Proof. exact string_fires_iff. Qed.
 Print Assumptions C05_string_violation_fires_iff.
+
+(* the same against the specification of C05/SpecString.v: the documented precondition as a function of the abstract
+   value (|contents|, capacity, arguments) only *)
+Theorem C05_string_violation_fires_iff_documented : forall s o, inv s -> op_wf o -> ptr_ok o ->
+  (step s o = Contract <-> pre_doc (zlen (contents s)) (cap s) o = false).
+Proof. exact string_fires_iff_doc. Qed.
+Print Assumptions C05_string_violation_fires_iff_documented.
 
 Theorem C05_string_valid_call_returns : forall s o, inv s -> op_wf o -> ptr_ok o -> pre_ok s o = true ->
   exists s', step s o = Ok s' /\ inv s' /\ cap s' = cap s /\ ckind s' = ckind s.
